@@ -67,6 +67,9 @@ func buildProfile(s *Sim, r *rand.Rand) {
 		arm("noresp", true)
 		arm("disconnect", true)
 		arm("delete", true)
+		if !faultFree && r.IntN(6) == 0 {
+			p.Faults["unsub_pending"] = true
+		}
 		p.Strict = true
 		cfg.Gw.NoUnsubscribeDelay = r.IntN(4) == 0
 		cfg.Gw.ReferenceThrottle = rpick(r, []int{0, 0, 0, 1, 2, 3})
@@ -215,6 +218,15 @@ func (s *Sim) genCoreClientOp(c *Client) (Decision, bool) {
 		}
 		if len(cand) > 0 && s.chance(0.85) {
 			rid = pickOne(s, cand)
+		}
+		if !p.fault("unsub_pending") {
+			// known finding F-3: an unsubscribe issued while a request for the same
+			// rid is outstanding is only generated when that fault kind is armed
+			for _, r := range c.ReqL {
+				if r.Resp == nil && r.RID == rid && r.Action != "unsubscribe" {
+					return cliReq(c, "subscribe."+rid, ""), true
+				}
+			}
 		}
 		params := ""
 		n := c.Direct[rid]
